@@ -244,6 +244,42 @@ def live_depth_coordinates(ctx: Context, rule: str) -> None:
                   copies[0] if copies else fi.node, construct=f"{fi.short}: copies made: {[norm_text(c)[:40] for c in copies] or 'none'}")
 
 
+def every_depth_coordinate(ctx: Context, rule: str) -> None:
+    """Whether a variable is a depth coordinate is decided from that variable alone (its attributes, not being a bounds variable,
+    not being defined on a grid): none is left out, or ranked below another, because of what else the dataset holds."""
+    from .common import facts
+    p = ctx.p
+    for fi in p.implementations(p.cls(BASE), 'depth_coordinates'):
+        flow = ctx.flow(fi)
+        appends = [c for c in calls_in(fi, nested=True) if isinstance(c.func, ast.Attribute) and c.func.attr in ('append', 'add') and isinstance(c.func.value, ast.Name) and len(c.args) == 1]
+        accs = sorted({c.func.value.id for c in appends})
+        if not appends:
+            continue    # a fixed list of names looked up in the dataset (SHOC): nothing is discovered, nothing can be left out
+        rets = fi.returns()
+        ok_ret = len(accs) == 1 and bool(rets) and all(
+            isinstance(flow.resolve(r.value), ast.Call) and dotted(flow.resolve(r.value).func) in ('tuple', 'list') and len(flow.resolve(r.value).args) == 1
+            and norm_text(flow.resolve(r.value).args[0]) == accs[0] for r in rets)
+        ctx.check(rule, ok_ret, "all the variables recognised as depth coordinates are returned, as one collection in dataset order", fi, rets[0] if rets else fi.node,
+                  construct=f"{fi.short}: collections filled: {accs}; returns {[norm_text(r.value)[:50] for r in rets]}")
+        foreign = []
+        for c in appends:
+            for t, pol in facts(ctx, fi, c, expand=False):
+                names = {n.id for n in ast.walk(ast.parse(t, mode='eval')) if isinstance(n, ast.Name)} if _parses(t) else set()
+                if names & set(accs) or '.dims' in t or '.sizes' in t or '.shape' in t:
+                    foreign.append(f"`{t}` is {pol}")
+        ctx.check(rule, not foreign, "a variable is a depth coordinate because of its own attributes: it is not left out because another coordinate was found before it "
+                  "(two vertical coordinates on one dimension, a depth and a height, each have their own sign)", fi, appends[0] if appends else fi.node,
+                  construct=f"{fi.short}: conditions on the collection so far or on shapes: {foreign[:2] or 'none'}")
+
+
+def _parses(text: str) -> bool:
+    try:
+        ast.parse(text, mode='eval')
+        return True
+    except SyntaxError:
+        return False
+
+
 # --------------------------------------------------------------------------- overrides
 
 REVIEWED_OVERRIDES = {
